@@ -114,6 +114,12 @@ def scenarios(rnd, quick, only_inbound=False):
         chunks = rnd.choice([[total], [4096] * (total // 4096) + ([total % 4096] if total % 4096 else []), [100, total - 100]])
         scns.append(dict(id="L%d" % si, role=rnd.choice(["acceptor", "initiator"]), buf=rnd.choice([0, 10]), senders=1,
                          conns=[dict(sent=[list(m) for m in msgs], chunks=chunks, out=0)]))
+    # bursts: many messages in one read with an application handler slower than the wire (every hand-off queue fills)
+    for si in range(5 if quick else 60):
+        msgs = [gen_msg(rnd) for _ in range(rnd.choice([30, 60, 100]))]
+        total = sum(len(m) for m in msgs)
+        scns.append(dict(id="B%d" % si, role=rnd.choice(["acceptor", "initiator"]), buf=rnd.choice([0, 1, 4, 10]), senders=1,
+                         conns=[dict(sent=[list(m) for m in msgs], chunks=rnd.choice([[total], [total // 2, total - total // 2]]), out=0)]))
     # several simultaneous connections on one acceptor
     for si in range(20 if quick else 300):
         cs = []
